@@ -208,14 +208,25 @@ func HarnessDir() (string, error) {
 // current working tree of the kraken module the harness is built against. A
 // test that is run against another tree with `go test -modfile F` must also
 // export VERIF_MODFILE=F (or put -modfile into GOFLAGS) so that the child is
-// built against the same tree.
+// built against the same tree; `VERIF_REPO=<tree> ./check` is recognised by
+// itself.
 func BuildChild(pkg, out string) error {
 	hd, err := HarnessDir()
 	if err != nil {
 		return err
 	}
 	args := []string{"build", "-tags", "verif", "-o", out}
-	if mf := os.Getenv("VERIF_MODFILE"); mf != "" {
+	mf := os.Getenv("VERIF_MODFILE")
+	if mf == "" && os.Getenv("VERIF_REPO") != "" {
+		// ./check with VERIF_REPO=<worktree> runs the test with -modfile=$VERIF_TMP/go.mod
+		// (replace => worktree): the child must be built against the same tree.
+		if cand := filepath.Join(os.Getenv("VERIF_TMP"), "go.mod"); os.Getenv("VERIF_TMP") != "" {
+			if _, err := os.Stat(cand); err == nil {
+				mf = cand
+			}
+		}
+	}
+	if mf != "" {
 		args = append(args, "-modfile", mf)
 	}
 	args = append(args, pkg)
